@@ -453,7 +453,10 @@ fn declare(
 			flags: _,
 		} =>
 		{
-			let cname = CString::new(&name.name as &str)?;
+			// Constants and functions have separate namespaces, but LLVM
+			// has one symbol table: a private global must not take the
+			// symbol that a function of the same name has to be found by.
+			let cname = CString::new(format!(".const.{}", name.name))?;
 			let vartype = value_type.generate(llvm)?;
 			let global =
 				unsafe { LLVMAddGlobal(llvm.module, vartype, cname.as_ptr()) };
